@@ -50,12 +50,78 @@ def to_text(toks):
     return ' '.join(out)
 
 
+def angle_groups(toks):
+    """(start, end) of `<` .. `>` pairs (generic argument / parameter lists); `->`, `=>` and `>=`-like puncts are skipped"""
+    out, stack = [], []
+    for i, t in enumerate(toks):
+        if t == '<' and i > 0 and (toks[i - 1].isidentifier() or toks[i - 1] in ('impl', 'for', ':')):
+            stack.append(i)
+        elif t == '>' and stack and toks[i - 1] not in ('-', '='):
+            out.append((stack.pop(), i))
+    return out
+
+
+# legal (or at least parseable) but unusual spellings: every one must expand without a panic, as is and mutated
+EXTRA_SEEDS = [
+    ('A', 'Add', 'impl Add<> for X { type Output = X; fn add(self, r: X) -> X { self } }'),
+    ('A', 'AddAssign', 'impl AddAssign<> for X { fn add_assign(&mut self, r: X) {} }'),
+    ('A', 'Add', 'impl ::core::ops::Add<X,> for X { type Output = X; fn add(self, r: X) -> X { self } }'),
+    ('A', 'Add', 'impl core::ops::Add<X, X> for X { type Output = X; fn add(self, r: X) -> X { self } }'),
+    ('A', 'Add', "impl<'a> Add<&'a X> for &'a X { type Output = X; fn add(self, r: &'a X) -> X { X } }"),
+    ('A', 'Add', 'impl Add<(X, X)> for X { type Output = X; fn add(self, r: (X, X)) -> X { self } }'),
+    ('A', 'Add', 'impl Add<X, Output = X> for X { fn add(self, r: X) -> X { self } }'),
+    ('A', 'Add', 'impl Add for X { }'),
+    ('A', 'Add', 'impl Add for X { type Output = X; }'),
+    ('A', 'Add', 'impl X { fn add(self, r: X) -> X { self } }'),
+    ('A', 'Add', 'impl !Add for X { }'),
+    ('A', 'Add', 'unsafe impl Add for X { type Output = X; fn add(self, r: X) -> X { self } }'),
+    ('A', 'Add, AddAssign', 'impl<T> Add<T> for X<T> where { type Output = Self; fn add(self, r: T) -> Self { self } }'),
+    ('A', 'Neg', 'impl Neg for X { type Output = X; fn neg(self) -> X { self } }'),
+    ('A', 'Clone', 'struct X<>(u8);'),
+    ('A', 'Clone,', 'enum E<> {}'),
+    ('A', 'Clone', 'struct X<T,>(T,) where T: Copy,;'),
+    ('A', 'Clone', 'struct X where;'),
+    ('A', 'Clone', 'struct X<T> where { a: T }'),
+    ('A', 'Default', 'struct X { #[default(_,)] a: u8, }'),
+    ('A', 'Debug, bound(),', 'struct X;'),
+    ('A', '', 'struct X;'),
+    ('A', 'Clone', 'union U { a: u8 }'),
+    ('A', 'Clone', 'fn f() {}'),
+    ('A', 'Clone', 'trait T {}'),
+    ('A', 'Clone', 'type A = u8;'),
+    ('A', 'Clone', 'mod m {}'),
+    ('A', 'Deref', 'struct X<T: ?Sized = [u8], const N: usize = { 1 + 1 }>(Box<T>);'),
+    ('A', 'PartialEq', "enum E<'a, T: 'a + ?Sized> { A(&'a T) = 1, B { x: u8, } = 2, C, }"),
+    ('A', 'Ord, PartialOrd, Eq, PartialEq, Hash', 'struct X(#[ord(key = $)] #[hash(key = ($))] u8, #[eq(key = $.0,)] (u8,),);'),
+    ('D', '', '#[derive_ex(Clone)] #[derive_ex()] #[derive_ex(Debug,)] struct X<>();'),
+    ('D', '', '#[derive_ex] struct X;'),
+    ('D', '', '#[derive_ex = "Clone"] struct X;'),
+    ('D', '', 'struct X;'),
+    ('D', '', '#[derive_ex(Clone)] union U { a: u8 }'),
+]
+
+
 def mutate(rng, toks, donors):
     toks = list(toks)
     if not toks:
         return toks, 'empty'
     gs, attrs = groups_of(toks)
-    k = rng.randrange(11)
+    k = rng.randrange(13)
+    if k >= 11:
+        ags = angle_groups(toks)
+        if ags:
+            s, e = ags[rng.randrange(len(ags))]
+            if k == 11:
+                del toks[s + 1:e]
+                return toks, 'empty-angle-list'
+            commas = [i for i in range(s + 1, e) if toks[i] == ',']
+            if commas:
+                c = commas[rng.randrange(len(commas))]
+                del toks[s + 1:c + 1]
+            else:
+                toks.insert(e, ',')
+            return toks, 'angle-list-element'
+        k = rng.randrange(11)
     if k == 0:
         i = rng.randrange(len(toks))
         if toks[i] not in CLOSE and toks[i] not in CLOSE.values():
@@ -141,8 +207,8 @@ class C16(Prop):
     tag = 'all parts + no panic + output re-parses + second run identical'
     rule = ('L1: random items/impls of the shape grammar incl. its error paths (model compared, both runs identical). '
             'Oracle: structure-aware token mutation (delete/duplicate/swap tokens, attributes, group elements; empty or '
-            'splice groups between seeds; insert stray arguments), 1-3 mutations each, of a seed corpus = every '
-            'derive_ex item of the test-suite, compile_fail cases, documentation and README plus generator output, as '
+            'splice groups between seeds; empty / shorten `<..>` lists; insert stray arguments), 1-3 mutations each, of a seed corpus = every '
+            'derive_ex item of the test-suite, compile_fail cases, documentation and README, a list of unusual-but-parseable spellings (`impl Add<> for X`, `struct X<>()`, `where` without predicates, trailing commas, non-struct items, ...) plus generator output, as '
             'attribute- and derive-macro input; non-trivial = mutant differs from its seed; distinct by input text')
     assumptions = ['panics inside syn/structmeta/quote are observable only by running them: covered by the mutation run (a test), not by the theorem']
 
@@ -172,7 +238,7 @@ class C16(Prop):
         return None
 
     def oracle(self, tier, rng, suspicious):
-        seeds = corpus.load()
+        seeds = corpus.load() + list(EXTRA_SEEDS)
         # generator output as additional seeds
         gen_res = R.run_cases(self.cases('quick', rng)[:400])
         seeds += [(r.mode, r.attr, r.item) for r in gen_res]
